@@ -88,3 +88,6 @@ m("string_newline_no_line", ["C18"], LX, "                    } else {\n        
 M[-1]["extra"] = [(SC, "    pub fn loc(&mut self) -> (usize, usize) {", "    pub fn line_back(&mut self) {\n        self.line -= 1;\n    }\n\n    pub fn loc(&mut self) -> (usize, usize) {")]
 m("cr_resets_col", ["C18", "C03"], SC, "            if c == '\\n' {\n                self.line += 1;\n                self.col = 0;\n            } else {", "            if c == '\\n' {\n                self.line += 1;\n                self.col = 0;\n            } else if c == '\\r' {\n                self.col = 0;\n            } else {")
 m("call_loc_from_args", ["C18"], PA, "    <loc:@L> <expr:ExprPrecedence5> \"(\" <args:ArgList> \")\" =>\n        RawExpr::Call{func: Box::new((expr, loc)), args},", "    <loc:@L> <expr:ExprPrecedence5> <l2:@L> \"(\" <args:ArgList> \")\" =>\n        RawExpr::Call{func: Box::new((expr, if args.len() > 2 { l2 } else { loc })), args},")
+m("if_drops_escape", ["C07", "C01"], EV, "                    let v = eval_stmts_in_new_scope(context, scopes, stmts)\n                        .context(EvalIfStatementsFailed)?;\n\n                    return Ok(v);", "                    let v = eval_stmts_in_new_scope(context, scopes, stmts)\n                        .context(EvalIfStatementsFailed)?;\n\n                    if let Escape::Continue{..} = v { return Ok(Escape::None); }\n                    return Ok(v);")
+m("for_continue_as_break", ["C07", "C01"], EV, "                match escape {\n                    Escape::None => {},\n                    Escape::Break{..} => break,\n                    Escape::Continue{..} => continue,\n                    Escape::Return{..} => return Ok(escape),\n                }\n            }\n        },\n\n        Stmt::Break", "                match escape {\n                    Escape::None => {},\n                    Escape::Break{..} => break,\n                    Escape::Continue{..} => break,\n                    Escape::Return{..} => return Ok(escape),\n                }\n            }\n        },\n\n        Stmt::Break")
+m("else_branch_swallow_return", ["C07"], EV, "                let v = eval_stmts_in_new_scope(context, scopes, stmts)\n                    .context(EvalElseStatementsFailed)?;\n\n                return Ok(v);", "                let v = eval_stmts_in_new_scope(context, scopes, stmts)\n                    .context(EvalElseStatementsFailed)?;\n\n                if let Escape::Break{..} = v { return Ok(v); }")
